@@ -339,6 +339,18 @@ def _same_on_domain(v: object, expected: Lin) -> bool | None:
     return None
 
 
+def _under_span_guard(u: ast.AST) -> bool:
+    """the update sits in the branch taken when pos is the start of a recorded fence span (`pos == <span>[0]`), together with an
+    absolute reset of column: the literal zone is skipped as a whole and line/column are set from the span's own arithmetic"""
+    cur = getattr(u, "_parent", None)
+    prev = u
+    while cur is not None and not isinstance(cur, (ast.FunctionDef, ast.AsyncFunctionDef)):
+        if isinstance(cur, ast.If) and prev in cur.body and any(f.startswith("pos == ") and f.endswith("[0]") for f in conjuncts(cur.test, True)):
+            return any(isinstance(a, ast.Assign) and any(isinstance(t, ast.Name) and t.id == "column" for t in a.targets) and isinstance(a.value, ast.Constant) for a in ast.walk(cur))
+        prev, cur = cur, getattr(cur, "_parent", None)
+    return False
+
+
 def check_bookkeeping(run: Run) -> None:
     run.rule("R07.1b", "position bookkeeping in tokenize: each update of pos sits beside the matching update of column (same amount), and after a regex token that contains newlines `line` grows by their count and `column` becomes the number of characters after the last newline plus one (checked by symbolic evaluation of the update expressions on text = A + '\\n' + T)", 5)
     lx = run.project.mod("core.lexer")
@@ -354,7 +366,7 @@ def check_bookkeeping(run: Run) -> None:
         where = lx.loc(u)
         if isinstance(u, ast.Assign) and isinstance(u.value, ast.Constant):
             continue  # pos = 0
-        if isinstance(u, ast.Assign) and val == "span_end":
+        if isinstance(u, ast.Assign) and (val == "span_end" or _under_span_guard(u)):
             run.instance("R07.1b", where, "fence span: line/column are set from the span's own line arithmetic (literal zones carry no rewrite receipts; C05)", nontrivial=False)
             continue
         n_checked += 1
@@ -399,6 +411,33 @@ def check_bookkeeping(run: Run) -> None:
         raise AnalysisError(f"tokenize: only {n_checked} pos updates examined (expected >= 5)")
 
 
+def _sym_exec(stmts: list[ast.stmt], env: dict[str, object], text: str) -> None:
+    """straight-line symbolic execution: x = e, x += e, (a, b) = (e1, e2) [simultaneous], (a, b) = <tuple-valued e>"""
+    for s in stmts:
+        if isinstance(s, ast.Assign) and len(s.targets) == 1 and isinstance(s.targets[0], ast.Name):
+            env[s.targets[0].id] = sym_eval(s.value, env, text)
+        elif isinstance(s, ast.Assign) and len(s.targets) == 1 and isinstance(s.targets[0], ast.Tuple) and all(isinstance(t, ast.Name) for t in s.targets[0].elts):
+            if isinstance(s.value, ast.Tuple) and len(s.value.elts) == len(s.targets[0].elts):
+                vals = [sym_eval(v, env, text) for v in s.value.elts]
+            else:
+                v = sym_eval(s.value, env, text)
+                if not (isinstance(v, tuple) and v[0] == "tuple" and len(v) - 1 == len(s.targets[0].elts)):
+                    raise Unknown(_text(s))
+                vals = list(v[1:])
+            for t, x in zip(s.targets[0].elts, vals):
+                env[t.id] = x  # type: ignore[attr-defined]
+        elif isinstance(s, ast.AugAssign) and isinstance(s.target, ast.Name) and isinstance(s.op, ast.Add):
+            cur = env.get(s.target.id)
+            v = sym_eval(s.value, env, text)
+            if not (isinstance(cur, Lin) and isinstance(v, Lin)):
+                raise Unknown(_text(s))
+            env[s.target.id] = cur + v
+        elif isinstance(s, (ast.Pass, ast.Expr)):
+            continue
+        elif isinstance(s, ast.Assign) or isinstance(s, ast.AugAssign):
+            raise Unknown(_text(s))
+
+
 def _check_match_block(blk: list[ast.stmt], u: ast.stmt) -> tuple[bool, str]:
     """symbolic check of the statements before `pos = match.end()` in its block"""
     env_nl: dict[str, object] = {"line": Lin({"line": 1}), "column": Lin({"column": 1})}
@@ -437,15 +476,7 @@ def _check_match_block(blk: list[ast.stmt], u: ast.stmt) -> tuple[bool, str]:
         nl_true = any(("> 0" in f or ">= 1" in f or "in matched_text" in f or f.strip() in env_nl or "!= -1" in f) and not f.startswith("!") for f in test_facts_true)
         nl_body, plain_body = (split.body, split.orelse) if nl_true else (split.orelse, split.body)
         env = dict(env_nl)
-        for s in nl_body:
-            if isinstance(s, ast.Assign) and len(s.targets) == 1 and isinstance(s.targets[0], ast.Name):
-                env[s.targets[0].id] = sym_eval(s.value, env, text)
-            elif isinstance(s, ast.AugAssign) and isinstance(s.target, ast.Name) and isinstance(s.op, ast.Add):
-                cur = env.get(s.target.id)
-                v = sym_eval(s.value, env, text)
-                if not (isinstance(cur, Lin) and isinstance(v, Lin)):
-                    raise Unknown(_text(s))
-                env[s.target.id] = cur + v
+        _sym_exec(nl_body, env, text)
         col_ok = _same_on_domain(env["column"], Lin({"t": 1, "": 1}))
         line_ok = _same_on_domain(env["line"], Lin({"line": 1, "n": 1}))
         if col_ok is None or line_ok is None:
@@ -454,8 +485,14 @@ def _check_match_block(blk: list[ast.stmt], u: ast.stmt) -> tuple[bool, str]:
             return False, f"after a token containing newlines column becomes `{env['column']}` instead of len(tail) + 1"
         if not line_ok:
             return False, f"after a token containing newlines line becomes `{env['line']}` instead of line + count"
-        # plain branch: column += len(matched_text)
-        ok_plain = any(isinstance(s, ast.AugAssign) and isinstance(s.target, ast.Name) and s.target.id == "column" and isinstance(s.op, ast.Add) and _text(s.value) == "len(matched_text)" for s in plain_body)
+        # plain branch (the token is one line: matched_text = T): column grows by len(matched_text), line stays
+        envp: dict[str, object] = {k: v for k, v in env_nl.items() if k in ("line", "column")}
+        envp[text] = ("str", "T")
+        try:
+            _sym_exec(plain_body, envp, "<none>")
+            ok_plain = _same_on_domain(envp["column"], Lin({"column": 1, "t": 1})) is True and _same_on_domain(envp["line"], Lin({"line": 1})) is True
+        except Unknown:
+            ok_plain = False
         if not ok_plain:
             return False, "for a token without newline column is not advanced by len(matched_text)"
         return True, "line += count, column = len(tail) + 1 with newlines; column += len(matched_text) without"
